@@ -2,6 +2,8 @@
    case   = VTup [VList xs; numSlices (VInt n | VNone); VList stages; action]   (codes: Model/RddLib.v)
    result = VList [glom().collect() after parallelize; ... after every stage ...; result of the action]
             with VErr "ExceptionClass" in place of (and ending the list at) the first step that raised.
+   layout case = VTup [VList partitions; VList stages; action]: the dataset is built from the explicit
+            partition lists (unequal sizes); same result format.
    sweep case = VTup [VInt L; VInt n]: parallelize(range(L), n) observed compactly as
             VTup [count(); collect(); number of partitions; (index, size) of the non-empty partitions]. *)
 From Coq Require Import String ZArith List.
@@ -15,6 +17,11 @@ Definition run (c : val) : val :=
       match (match nv with VInt n => Some n | VNone => Some 1 | _ => None end),
             decode_trs stages, decode_act a with
       | Some n, Some ts, Some a' => VList (observe ts a' (parallelize xs n))
+      | _, _, _ => VBad
+      end
+  | VTup [VList layout; VList stages; a] =>           (* explicit partitions: ctx._parallelize_partitions(layout) *)
+      match as_parts layout, decode_trs stages, decode_act a with
+      | Some ps, Some ts, Some a' => VList (observe ts a' ps)
       | _, _, _ => VBad
       end
   | VTup [VInt L; VInt n] => observe_sweep L n      (* slice-count sweep: parallelize(range(L), n) *)
